@@ -105,6 +105,13 @@ func (p *Prog) Run(bs map[string]interface{}) Outcome {
 			if v, have := cur[op.K]; have {
 				cur[op.Keys[0]] = jsongen.Copy(v)
 			}
+		case "nestSet":
+			// in ECMAScript this writes into the nested object in place
+			if m, ok := cur[op.K].(map[string]interface{}); ok {
+				nm := jsongen.CopyMap(m)
+				nm[op.Keys[0]] = jsongen.Copy(op.V)
+				cur[op.K] = nm
+			}
 		case "emit":
 			emitted = append(emitted, jsongen.Copy(op.V))
 		case "emitOf":
@@ -191,6 +198,8 @@ func (p *Prog) ES() string {
 			fmt.Fprintf(&sb, "bs[%s] = Array.isArray(bs[%s]) ? bs[%s].concat([%s]) : [%s];\n", k, k, k, js(op.V), js(op.V))
 		case "copy":
 			fmt.Fprintf(&sb, "if (bs[%s] !== undefined) { bs[%s] = JSON.parse(JSON.stringify(bs[%s])); }\n", k, js(op.Keys[0]), k)
+		case "nestSet":
+			fmt.Fprintf(&sb, "if (bs[%s] !== null && typeof bs[%s] === 'object' && !Array.isArray(bs[%s])) { bs[%s][%s] = %s; }\n", k, k, k, k, js(op.Keys[0]), js(op.V))
 		case "emit":
 			fmt.Fprintf(&sb, "_.out(%s);\n", js(op.V))
 		case "emitOf":
@@ -229,10 +238,18 @@ const (
 	NativeScribble                  // writes a top-level key into the map it is given, whatever it then returns (a careless native guard)
 )
 
+// OnNativeExec, when set, is told about every execution of a native
+// rendering: the program, and how it ended ("ok", "null", "fail").  Checks
+// use it to observe the order in which guards are consulted.
+var OnNativeExec func(p *Prog, kind string)
+
 // Native renders the program as a core.Action backed by the model.
 func (p *Prog) Native(mode NativeMode) core.Action {
 	return &core.FuncAction{F: func(ctx context.Context, bs match.Bindings, props core.StepProps) (*core.Execution, error) {
 		out := p.Run(map[string]interface{}(bs))
+		if OnNativeExec != nil {
+			OnNativeExec(p, out.Kind)
+		}
 		if mode == NativeScribble && bs != nil {
 			n, _ := bs["scribbled"].(float64)
 			bs["scribbled"] = n + 1
@@ -323,7 +340,7 @@ func GenProg(t *rapid.T, o ProgOpts, label string) *Prog {
 	p := &Prog{}
 	for i := 0; i < n; i++ {
 		l := fmt.Sprintf("%s.%d", label, i)
-		kinds := []string{"set", "set", "del", "inc", "push", "keep", "fresh", "copy"}
+		kinds := []string{"set", "set", "del", "inc", "push", "keep", "fresh", "copy", "nestSet"}
 		if o.Emit {
 			kinds = append(kinds, "emit", "emit", "emitOf")
 		}
@@ -341,6 +358,8 @@ func GenProg(t *rapid.T, o ProgOpts, label string) *Prog {
 			p.Ops = append(p.Ops, Op{Op: kind, K: k})
 		case "copy":
 			p.Ops = append(p.Ops, Op{Op: kind, K: k, Keys: []string{rapid.SampledFrom(keys).Draw(t, l+".k2")}})
+		case "nestSet":
+			p.Ops = append(p.Ops, Op{Op: kind, K: k, Keys: []string{rapid.SampledFrom([]string{"a", "b", "n"}).Draw(t, l+".nk")}, V: jsongen.Scalar(t, vo, l+".nv")})
 		case "keep":
 			nk := rapid.IntRange(0, 3).Draw(t, l+".nk")
 			ks := []string{}
